@@ -199,7 +199,9 @@ def repeatStr (s : String) : Nat → String
 /-- `_parse_constant` -/
 def pConstant : P Val := do
   let tok ← advance
-  if intConst.contains tok.kind then
+  if tok.kind == "INT_CONST_CHAR" then
+    pure (mk .Constant (some (← tokCoord tok)) [.str "int", .str tok.val])
+  else if intConst.contains tok.kind then
     let (u, l) := countSuffix tok.val
     if u > 1 then crash .value "Constant cannot have more than one u/U suffix."
     else if l > 2 then crash .value "Constant cannot have more than two l/L suffix."
